@@ -95,7 +95,7 @@ impl Prop for C07 {
   fn rule(&self) -> String {
     "trees from gen::tree(wild): all source types, 1-4 byte UTF-8 text, binary leaves with invalid UTF-8 (lone \
      continuation bytes, truncated sequences, overlongs, surrogates); all five views compared with each other and \
-     with the reference text/bytes, every ConcatSource node compared with its children; fault sequence: a writer \
+     with the reference text/bytes, every ConcatSource node compared with its children; each tree is additionally built through a history mutate, observe, mutate, observe (views read during construction); fault sequence: a writer \
      that accepts k bytes in total (short writes of <= step bytes) and then fails, for EVERY k in 0..=len+1. \
      Non-trivial: tree with >=2 leaves including a binary or multi-byte one, and len>=2 (so a fault strictly inside \
      exists); distinct by hash of the case JSON".into()
@@ -147,6 +147,33 @@ impl Prop for C07 {
         return Err("views changed on the second call".into());
       }
       check_concat_nodes(spec)?;
+      // the same tree built through a history mutate, observe, mutate, observe, ...:
+      // views read while a ReplaceSource / ConcatSource was under construction must not stick
+      let mut n = case.step;
+      let observed = crate::build::build_observed(spec, &mut |s| {
+        n += 1;
+        match n % 5 {
+          0 => drop(s.size()),
+          1 => drop(s.source()),
+          2 => drop(s.buffer()),
+          3 => drop(s.rope().to_string()),
+          _ => {
+            let mut v = vec![];
+            let _ = s.to_writer(&mut v);
+          }
+        }
+      });
+      if observed.source() != text || observed.buffer() != buf || observed.size() != buf.len() || observed.rope().to_string() != text {
+        return Err(format!(
+          "a tree built with observers called between its mutating calls answers source()={:?} size()={} buffer().len()={} rope()={:?}; expected text {text:?} ({} bytes)",
+          observed.source(), observed.size(), observed.buffer().len(), observed.rope().to_string(), buf.len()
+        ));
+      }
+      let mut w2 = vec![];
+      observed.to_writer(&mut w2).map_err(|e| format!("to_writer into a Vec failed: {e}"))?;
+      if w2 != buf {
+        return Err("a tree built with observers between its mutating calls writes different bytes".into());
+      }
       // every fault point
       for k in 0..=buf.len() + 1 {
         let mut fw = FaultyWriter { budget: k, step: case.step, got: vec![], calls_after_error: 0, failed: false };
